@@ -47,6 +47,7 @@ def run_property(prop, ctx, tier, emit=True, evidence=True, seed=0):
     mod.run(ctx, rep)
     if tier == "thorough" and hasattr(mod, "thorough"):
         mod.thorough(ctx, rep)
+    rep.check_floors()
     return rep
 
 
@@ -79,7 +80,9 @@ def main(argv=None):
         evp = None if args.no_evidence else os.path.join(VERIF, "evidence", "%s.json" % prop)
         try:
             rep = run_property(prop, ctx, args.tier, seed=seed)
-            if args.tier == "thorough":
+            if args.tier == "thorough" and not rep.classify()[0]:
+                # the corpus is a self-test of a checker that is quiet on this tree; when the tree
+                # itself violates the property that verdict comes first
                 from . import sensitivity
                 sensitivity.run(prop, ctx, rep, seed)
             if replay:
